@@ -599,6 +599,8 @@ def c10(ck):
                "schedule replayed deterministically through a gate at the delivery hook for each body kind, plus random "
                "schedules (2..6 threads of deref / done? / cancelled? / cancel, short caller deadlines); every recorded "
                "scenario validated by TraceFuture.tla; race detector run")
+    # the repaired design for ANY number of deref threads: TLAPS proof over FutureImpl itself (Design = "fixed")
+    ck.extra["tlaps_obligations_proved_FutureProof"] = ck.tlapm("FutureProof")
     q = ck.quick
     for bk in ("value", "error", "sleeps", "ignores"):
         for wc in ("TRUE", "FALSE"):
